@@ -5,7 +5,7 @@ import traceback
 from contracts.common import REG
 
 
-def run_property(rep, keys, hooks=None, explanation="", trusted=(), fallback=None, driver=True, known_keys=()):
+def run_property(rep, keys, hooks=None, explanation="", trusted=(), fallback=None, driver=True, known_keys=(), lemmas=None):
     rep.explanation = explanation
     rep.trusted += list(trusted) + ["z3 5.1 / cvc5 1.0.3 soundness", "pyvc executor (guarded by native cross-check and mutation trials)",
                                     "CPython built-ins as axiomatised in pyvc/builtins.py"]
@@ -26,6 +26,8 @@ def run_property(rep, keys, hooks=None, explanation="", trusted=(), fallback=Non
         return None
     if keys:
         rep.add_pyvc(REG, keys, hooks=hooks, fallback=fb)
+    if lemmas:
+        rep.add_lemmas(lemmas())
     if drv is not None:
         try:
             out = drv.run(rep.tier, rep.seed)
